@@ -29,6 +29,7 @@ struct VerifTTAccess {
     static U64 tableSize(const TranspositionTable& t) { return t.tableSize; }
     static U64 usedSizeMask(const TranspositionTable& t) { return t.usedSizeMask; }
     static bool tbResident(const TranspositionTable& t) { return t.tbGen != nullptr; }
+    static U64 contemptHash(const TranspositionTable& t) { return t.contemptHash; }
 };
 
 namespace {
@@ -52,9 +53,9 @@ int toStored(int s, int ply) { return isWin(s) ? s + ply : isLose(s) ? s - ply :
 int fromStored(int s, int ply) { return isWin(s) ? s - ply : isLose(s) ? s + ply : s; }
 
 // ============================ (i) model-based histories =======================================
-enum OpKind { INSERT, PROBE, CLEAR, NEXTGEN, SETBUSY };
+enum OpKind { INSERT, PROBE, CLEAR, NEXTGEN, SETBUSY, CONTEMPT };   // CONTEMPT: key = index into ModelCase::contempts
 struct Op { OpKind k; int key; int move; int score; int ply; int depth; int type; int eval; bool busy; };
-struct ModelCase { long entries; std::vector<uint64_t> keys; std::vector<Op> ops; };
+struct ModelCase { long entries; std::vector<uint64_t> keys; std::vector<int> contempts; std::vector<Op> ops; };   // contempts[0] == 0 is in force at the start
 
 Value caseJson(const ModelCase& c, size_t nOps = (size_t)-1) {
     Value k = Value::object();
@@ -62,6 +63,7 @@ Value caseJson(const ModelCase& c, size_t nOps = (size_t)-1) {
     std::vector<std::string> ks;
     for (auto x : c.keys) ks.push_back(hex(x));
     k["keys"] = Value::arrayOf(ks);
+    k["contempts"] = Value::arrayOf(c.contempts);
     Value ops = Value::array();
     for (size_t i = 0; i < c.ops.size() && i < nOps; i++) {
         const Op& o = c.ops[i];
@@ -72,16 +74,19 @@ Value caseJson(const ModelCase& c, size_t nOps = (size_t)-1) {
         case SETBUSY: v.push("setbusy"); v.push(o.key); v.push(o.ply); break;
         case CLEAR: v.push("clear"); break;
         case NEXTGEN: v.push("nextgen"); break;
+        case CONTEMPT: v.push("contempt"); v.push(o.key); break;
         }
         ops.push(v);
     }
     k["ops"] = ops;
-    k["format"] = "insert: key#, move (from + to<<6 + promote<<12; 0 = empty move), score, ply, depth, type (1 exact 2 >= 3 <=), evalScore, busy | probe/setbusy: key#, ply";
+    k["format"] = "insert: key#, move (from + to<<6 + promote<<12; 0 = empty move), score, ply, depth, type (1 exact 2 >= 3 <=), evalScore, busy | probe/setbusy: key#, ply | contempt: contempt# (setWhiteContempt)";
     return k;
 }
 bool caseFromJson(const Value& k, ModelCase& c) {
     c.entries = (long)k.getInt("entries", 512);
     for (auto& s : k.strs("keys")) c.keys.push_back(unhex(s));
+    if (const Value* cs = k.find("contempts")) for (auto& e : cs->a) c.contempts.push_back((int)e.num());
+    if (c.contempts.empty()) c.contempts.push_back(0);
     const Value* ops = k.find("ops");
     if (!ops) return false;
     for (auto& e : ops->a) {
@@ -94,6 +99,7 @@ bool caseFromJson(const Value& k, ModelCase& c) {
         else if (n == "setbusy") { o.k = SETBUSY; o.key = num(1); o.ply = num(2); }
         else if (n == "clear") o.k = CLEAR;
         else if (n == "nextgen") o.k = NEXTGEN;
+        else if (n == "contempt") { o.k = CONTEMPT; o.key = num(1); if (o.key < 0 || o.key >= (int)c.contempts.size()) return false; }
         else return false;
         if ((o.k == INSERT || o.k == PROBE || o.k == SETBUSY) && (o.key < 0 || o.key >= (int)c.keys.size())) return false;
         c.ops.push_back(o);
@@ -118,7 +124,7 @@ int drawMove(Choices& c, bool allowEmpty) {
     return from + (to << 6) + (promo << 12);
 }
 
-ModelCase decodeModel(Choices& c) {
+ModelCase decodeModel(Choices& c, bool withContempt) {
     static const long sizes[] = {512, 516, 520, 768, 1000, 1020, 1024, 1028, 2048, 4092, 4096, 5120, 8188, 8192};
     ModelCase k;
     k.entries = sizes[c.pick(sizeof sizes / sizeof sizes[0])];
@@ -133,6 +139,8 @@ ModelCase decodeModel(Choices& c) {
         if (e == 2) r |= 0xffff;                       // all low bits set
         rep.push_back(r);
     }
+    k.contempts.push_back(0);
+    if (withContempt) { int nc = c.range(1, 2); for (int i = 0; i < nc; i++) { int v = c.range(1, 200); k.contempts.push_back(c.flip() ? v : -v); } }
     if (c.chance(1, 10)) k.keys.push_back(0);          // key 0 looks like an empty slot
     while ((int)k.keys.size() < nKeys) {
         uint64_t r = rep[c.pick(nRep)];
@@ -156,6 +164,7 @@ ModelCase decodeModel(Choices& c) {
         else if (r < 93) { o.k = SETBUSY; o.ply = c.range(0, 200); }
         else if (r < 98) o.k = NEXTGEN;
         else o.k = CLEAR;
+        if (withContempt && c.chance(1, 12)) { Op cc{CONTEMPT, c.pick((int)k.contempts.size()), 0, 0, 0, 0, 1, 0, false}; k.ops.push_back(cc); }
         k.ops.push_back(o);
     }
     return k;
@@ -171,34 +180,47 @@ std::string recStr(const Rec& r, int ply) {
 }
 struct KeyState { std::vector<Rec> poss; bool maybeAbsent = false; bool everInserted = false; };
 
-struct ModelFlags { bool evictionPossible = false, mergeEmptyMove = false, mateShift = false, hitAfterCollision = false, setBusyHit = false, lastBucket = false; };
+struct ModelFlags { bool evictionPossible = false, mergeEmptyMove = false, mateShift = false, hitAfterCollision = false, setBusyHit = false, lastBucket = false, contemptBusy = false; };
 
 void runModel(const std::string& sub, const ModelCase& c, vh::Stats& st) {
     st.evaluations++;
     vh::setCurrent(sub, caseJson(c));
     if (c.entries < 512 || c.entries > (1 << 20) || (c.entries & 3)) vh::fail(caseJson(c, 0), "case: table size outside the domain (multiple of 4, >= 512)");
     TranspositionTable tt((U64)c.entries);
-    const int n = (int)c.keys.size();
+    // A record stored under one contempt is a record of another logical key under another contempt (the table
+    // hashes the contempt into the key).  Logical key L = key# * nc + contempt#.
+    const int nk = (int)c.keys.size(), nc = (int)c.contempts.size(), n = nk * nc;
+    if (nc < 1 || c.contempts[0] != 0) vh::fail(caseJson(c, 0), "case: contempts[0] must be 0");
+    std::vector<U64> ch(nc);
+    for (int i = 0; i < nc; i++) { tt.setWhiteContempt(c.contempts[i]); ch[i] = VerifTTAccess::contemptHash(tt); }
+    tt.setWhiteContempt(0);
+    int cc = 0;                                           // contempt in force
     std::vector<KeyState> ks(n);
     std::vector<size_t> idx(n);
-    for (int i = 0; i < n; i++) {
-        idx[i] = VerifTTAccess::getIndex(tt, c.keys[i]);
-        if (idx[i] + 3 >= (size_t)c.entries) vh::fail(caseJson(c, 0), "getIndex(" + hex(c.keys[i]) + ") = " + std::to_string(idx[i]) + " on a table of " + std::to_string(c.entries) + " entries: the bucket reaches past the end");
+    std::vector<U64> eff(n);
+    for (int L = 0; L < n; L++) {
+        eff[L] = c.keys[L / nc] ^ ch[L % nc];
+        idx[L] = VerifTTAccess::getIndex(tt, eff[L]);
+        if (idx[L] + 3 >= (size_t)c.entries) vh::fail(caseJson(c, 0), "getIndex(" + hex(eff[L]) + ") = " + std::to_string(idx[L]) + " on a table of " + std::to_string(c.entries) + " entries: the bucket reaches past the end");
     }
     ModelFlags f;
     auto overlaps = [&](int a, int b) { size_t d = idx[a] > idx[b] ? idx[a] - idx[b] : idx[b] - idx[a]; return d < 4; };
-    auto bad = [&](size_t i, const std::string& msg) { vh::fail(caseJson(c, i + 1), "after command " + std::to_string(i) + ": " + msg); };
-    auto sameKey = [&](int a, int b) { return c.keys[a] == c.keys[b]; };
+    auto bad = [&](size_t i, const std::string& msg) { vh::fail(caseJson(c, i + 1), "after command " + std::to_string(i) + (c.contempts[cc] ? " (contempt " + std::to_string(c.contempts[cc]) + ")" : "") + ": " + msg); };
+    auto sameKey = [&](int a, int b) { return eff[a] == eff[b]; };
+    U64 rawKey = 0;                                       // the key of the running command as the caller passes it (the canonical logical key may belong to another contempt)
+    auto raw = [&](int) { return rawKey; };
+    // canonical logical key (duplicates in the pool share one state)
+    std::vector<int> canon(n);
+    for (int i = 0; i < n; i++) { canon[i] = i; for (int j = 0; j < i; j++) if (sameKey(i, j)) { canon[i] = j; break; } }
 
     auto modelInsert = [&](int K, const Rec& nw, bool busy) {
-        // every pool index with the same 64-bit key shares one state: use the first such index
         KeyState& s = ks[K];
         bool wasCertain = !s.poss.empty() && !s.maybeAbsent;
         std::vector<Rec> np;
         auto add = [&](const Rec& r) { if (std::find(np.begin(), np.end(), r) == np.end()) np.push_back(r); };
         for (auto& r : s.poss) {
             Rec m = nw;
-            if (nw.move == 0 || ((nw.move & 63) == ((nw.move >> 6) & 63))) { m.move = r.move; f.mergeEmptyMove = true; }   // an empty move keeps the stored move
+            if ((nw.move & 63) == ((nw.move >> 6) & 63)) { m.move = r.move; f.mergeEmptyMove = true; }   // an empty move keeps the stored move
             add(m);
             if (!busy) add(r);                                   // the table may keep a deeper record of the same kind
         }
@@ -206,41 +228,32 @@ void runModel(const std::string& sub, const ModelCase& c, vh::Stats& st) {
         s.poss = np; s.maybeAbsent = false; s.everInserted = true;
         if (!wasCertain)
             for (int j = 0; j < n; j++)
-                if (j != K && !sameKey(j, K) && overlaps(j, K) && !ks[j].poss.empty()) { ks[j].maybeAbsent = true; f.evictionPossible = true; }
+                if (j != K && canon[j] == j && overlaps(j, K) && !ks[j].poss.empty()) { ks[j].maybeAbsent = true; f.evictionPossible = true; }
         if (idx[K] + 4 >= (size_t)c.entries) f.lastBucket = true;
     };
-    // canonical pool index of a key (duplicates in the pool share state)
-    std::vector<int> canon(n);
-    for (int i = 0; i < n; i++) { canon[i] = i; for (int j = 0; j < i; j++) if (sameKey(i, j)) { canon[i] = j; break; } }
-
-    auto observe = [&](const TTEntry& e, int ply, Rec& out) {
-        Move m; e.getMove(m);
-        out.move = m.getCompressedMove();
-        out.depth = e.getDepth(); out.type = e.getType(); out.eval = e.getEvalScore(); out.busy = e.getBusy();
-        out.stored = 0;
-        return e.getScore(ply);
-    };
-    // probe + model check; returns true on a hit and leaves the entry in `ent`
+    // probe + model check; returns true on a hit and leaves the entry in `ent`.  K is a logical key of the contempt in force.
     auto doProbe = [&](size_t i, int K, int ply, TTEntry& ent) -> bool {
         KeyState& s = ks[K];
         ent = TTEntry();
-        tt.probe(c.keys[K], ent);
+        tt.probe(raw(K), ent);
         if (ent.getType() == TType::T_EMPTY) {
-            if (!s.poss.empty() && !s.maybeAbsent) bad(i, "probe(" + hex(c.keys[K]) + ") misses although the key was stored and nothing else was inserted into its bucket since");
+            if (!s.poss.empty() && !s.maybeAbsent) bad(i, "probe(" + hex(raw(K)) + ") misses although the key was stored and nothing else was inserted into its bucket since");
             s.poss.clear(); s.maybeAbsent = false;
             return false;
         }
-        Rec o;
-        int sc = observe(ent, ply, o);
-        if (ent.getKey() != c.keys[K]) bad(i, "probe(" + hex(c.keys[K]) + ") returns an entry whose key is " + hex(ent.getKey()));
-        if (s.poss.empty()) bad(i, "probe(" + hex(c.keys[K]) + ") returns data although the key is not in the table (never stored, or cleared): move " + std::to_string(o.move) + " score " + std::to_string(sc));
+        Move mv; ent.getMove(mv);
+        Rec o{mv.getCompressedMove(), 0, ent.getDepth(), ent.getType(), ent.getEvalScore(), ent.getBusy()};
+        int sc = ent.getScore(ply);
+        if (c.contempts[cc] == 0 && ent.getKey() != raw(K)) bad(i, "probe(" + hex(raw(K)) + ") returns an entry whose key is " + hex(ent.getKey()));
+        if (s.poss.empty()) bad(i, "probe(" + hex(raw(K)) + ") returns data although nothing is stored for that key (never inserted, or cleared): move " + std::to_string(o.move) + " score " + std::to_string(sc) +
+                                   " depth " + std::to_string(o.depth) + " type " + std::to_string(o.type) + " busy " + (o.busy ? "1" : "0"));
         int match = -1;
         for (size_t j = 0; j < s.poss.size(); j++) {
             const Rec& r = s.poss[j];
             if (r.move == o.move && fromStored(r.stored, ply) == sc && r.depth == o.depth && r.type == o.type && r.eval == o.eval && r.busy == o.busy) { match = (int)j; break; }
         }
         if (match < 0) {
-            std::string m = "probe(" + hex(c.keys[K]) + ", ply " + std::to_string(ply) + ") returns {move " + std::to_string(o.move) + ", score " + std::to_string(sc) + ", depth " + std::to_string(o.depth) +
+            std::string m = "probe(" + hex(raw(K)) + ", ply " + std::to_string(ply) + ") returns {move " + std::to_string(o.move) + ", score " + std::to_string(sc) + ", depth " + std::to_string(o.depth) +
                             ", type " + std::to_string(o.type) + ", eval " + std::to_string(o.eval) + ", busy " + (o.busy ? "1" : "0") + "}; records this key can hold:";
             for (auto& r : s.poss) m += " " + recStr(r, ply);
             bad(i, m);
@@ -254,18 +267,19 @@ void runModel(const std::string& sub, const ModelCase& c, vh::Stats& st) {
 
     for (size_t i = 0; i < c.ops.size(); i++) {
         const Op& op = c.ops[i];
-        int K = (op.k == CLEAR || op.k == NEXTGEN) ? 0 : canon[op.key];
+        int K = (op.k == CLEAR || op.k == NEXTGEN || op.k == CONTEMPT) ? 0 : canon[op.key * nc + cc];
+        if (op.k == INSERT || op.k == PROBE || op.k == SETBUSY) rawKey = c.keys[op.key];
         switch (op.k) {
         case INSERT: {
             if (std::abs(toStored(op.score, op.ply)) > MATE0 || op.type < 1 || op.type > 3 || op.depth > 511 || op.eval < -32768 || op.eval > 32767 || op.ply < 0)
                 vh::fail(caseJson(c, i + 1), "case: insert arguments outside the domain");
             Move m; m.setFromCompressed((U16)op.move); m.setScore(op.score);
-            tt.insert(c.keys[K], m, op.type, op.ply, op.depth, op.eval, op.busy);
+            tt.insert(raw(K), m, op.type, op.ply, op.depth, op.eval, op.busy);
             Rec nw{op.move, toStored(op.score, op.ply), std::max(op.depth, 0), op.type, op.eval, op.busy};
             modelInsert(K, nw, op.busy);
             // an insert always leaves the key in the table: it must be found right away
             TTEntry e;
-            if (!doProbe(i, K, op.ply, e)) bad(i, "probe right after insert(" + hex(c.keys[K]) + ") misses");
+            if (!doProbe(i, K, op.ply, e)) bad(i, "probe right after insert(" + hex(raw(K)) + ") misses");
             st.count("model: inserts");
             break;
         }
@@ -279,12 +293,13 @@ void runModel(const std::string& sub, const ModelCase& c, vh::Stats& st) {
             TTEntry e;
             if (doProbe(i, K, op.ply, e)) {
                 Rec r = ks[K].poss[0];
-                tt.setBusy(e, op.ply);
+                tt.setBusy(e, op.ply);                              // "Set the busy flag for an entry"
                 Rec nw{r.move, toStored(fromStored(r.stored, op.ply), op.ply), r.depth, r.type, r.eval, true};
                 ks[K].poss.assign(1, nw);                           // busy stores unconditionally; the key is present, nothing is evicted
                 TTEntry e2;
-                if (!doProbe(i, K, op.ply, e2)) bad(i, "probe right after setBusy(" + hex(c.keys[K]) + ") misses");
+                if (!doProbe(i, K, op.ply, e2)) bad(i, "probe right after setBusy(" + hex(raw(K)) + ") misses");
                 f.setBusyHit = true;
+                if (c.contempts[cc]) f.contemptBusy = true;
                 st.count("model: setBusy on a hit");
             }
             break;
@@ -295,10 +310,18 @@ void runModel(const std::string& sub, const ModelCase& c, vh::Stats& st) {
             for (auto& s : ks) { s.poss.clear(); s.maybeAbsent = false; }
             st.count("model: clear");
             break;
+        case CONTEMPT:
+            cc = op.key;
+            tt.setWhiteContempt(c.contempts[cc]);
+            st.count("model: setWhiteContempt");
+            break;
         }
     }
-    // final sweep: every key of the pool
-    for (int K = 0; K < n; K++) { if (canon[K] != K) continue; TTEntry e; doProbe(c.ops.size() ? c.ops.size() - 1 : 0, K, 0, e); }
+    // final sweep: every logical key
+    for (int ci = 0; ci < nc; ci++) {
+        cc = ci; tt.setWhiteContempt(c.contempts[ci]);
+        for (int k = 0; k < nk; k++) { int K = k * nc + ci; rawKey = c.keys[k]; TTEntry e; doProbe(c.ops.size() ? c.ops.size() - 1 : 0, canon[K], 0, e); }
+    }
     vh::clearCurrent();
     auto mk = [&]() { return caseJson(c); };
     if (f.evictionPossible) st.clsSample("model: insert into a full/contended bucket (another key may be evicted)", mk);
@@ -306,7 +329,9 @@ void runModel(const std::string& sub, const ModelCase& c, vh::Stats& st) {
     if (f.mergeEmptyMove) st.clsSample("model: empty move merged with the stored move", mk);
     if (f.mateShift) st.clsSample("model: mate score read at another ply", mk);
     if (f.setBusyHit) st.clsSample("model: setBusy on a hit", mk);
+    if (f.contemptBusy) st.clsSample("model: setBusy on a hit under non-zero contempt", mk);
     if (f.lastBucket) st.clsSample("model: key in the last bucket of the table", mk);
+    if (nc > 1) st.cls("model: history with contempt changes");
     if (f.evictionPossible || f.mergeEmptyMove || f.mateShift || f.setBusyHit) st.nt(vj::dump(caseJson(c))); else st.cls("model: plain");
 }
 
@@ -726,7 +751,7 @@ int main(int argc, char** argv) {
     if (!a.replay.empty()) {
         return vh::runReplay([&](const std::string& sub, const Value& k) {
             std::string kind = k.getStr("kind");
-            if (sub == "model") { ModelCase c; if (!caseFromJson(k, c)) vh::fail(k, "replay file: bad model case"); runModel(sub, c, st); return; }
+            if (sub == "model" || sub == "model-contempt") { ModelCase c; if (!caseFromJson(k, c)) vh::fail(k, "replay file: bad model case"); runModel(sub, c, st); return; }
             if (sub == "mate") { TranspositionTable tt(1024); MateCase m{(int)k.getInt("score", 0), (int)k.getInt("ply1", 0), (int)k.getInt("ply2", 0)}; runMate(sub, m, st, tt, 0x123456789abcdefULL); return; }
             if (kind == "hammer" || sub == "hammer") {
                 HammerCase h{(int)k.getInt("threads", 4), (int)k.getInt("buckets", 2), (int)k.getInt("keys_per_bucket", 6), (long)k.getInt("entries", 512), (long)k.getInt("ops_per_thread", 1000000), strtoull(k.getStr("seed").c_str(), 0, 10)};
@@ -753,7 +778,9 @@ int main(int argc, char** argv) {
     std::string mode = a.str("mode", "model");
     if (mode == "model") {
         long n = a.cases;
-        vh::runProp("model", n, 12.0, [&](Choices& c) { ModelCase k = decodeModel(c); runModel("model", k, st); });
+        long ncont = a.num("contempt-cases", n / 4);
+        vh::runProp("model", n - ncont, 12.0, [&](Choices& c) { ModelCase k = decodeModel(c, false); runModel("model", k, st); });
+        vh::runProp("model-contempt", ncont, 12.0, [&](Choices& c) { ModelCase k = decodeModel(c, true); runModel("model-contempt", k, st); });
         TranspositionTable tt(1024);
         long nm = a.num("mate-cases", 20000);
         vh::runProp("mate", nm, 1.0, [&](Choices& c) {
